@@ -223,6 +223,77 @@ def gen_values(rng, s, o, n, dyadic):
     return mode, vals
 
 
+def stream_layer(ck, n_cases):
+    """scale-aware records streamed into a writer or an appender that uses another scaling: the file carries the
+    destination's scaling, its coordinates are those the record presented (to within half a step) or the call raises
+    OverflowError, and the caller's record is exactly as it was - also when it is streamed twice"""
+    import laspy
+    from laspy.laswriter import LasWriter
+    for ci in range(n_cases):
+        fmt = ck.rng.choice([0, 3, 6])
+        n = ck.rng.choice([1, 2, 5])
+        rs = [ck.rng.choice([0.5, 0.25, 1.0, 2.0]) for _ in range(3)]
+        ro = [ck.rng.choice([0.0, 16.0, -8.0, 1024.0]) for _ in range(3)]
+        ds = [ck.rng.choice([0.5, 0.125, 1.0, 4.0]) for _ in range(3)]
+        do = [ck.rng.choice([0.0, -32.0, 64.0, 4096.0]) for _ in range(3)]
+        pf = laspy.PointFormat(fmt)
+        rec = laspy.ScaleAwarePointRecord.zeros(n, point_format=pf, scales=np.array(rs), offsets=np.array(ro))
+        for d in "XYZ":
+            rec.array[d] = np.array([ck.rng.choice([0, 1, -1, 12345, -99999, ck.rng.randrange(-10**6, 10**6), 2**31 - 1]) for _ in range(n)], dtype="i4")
+        dest = ck.rng.choice(["writer", "appender"])
+        twice = ck.rng.random() < 0.4
+        inp = {"kind": "stream", "dest": dest, "fmt": fmt, "rec_scales": rs, "rec_offsets": ro, "dest_scales": ds, "dest_offsets": do,
+               "XYZ": [rec.array[d].tolist() for d in "XYZ"], "twice": twice}
+        ck.case(("stream", dest, fmt, tuple(rs), tuple(ro), tuple(ds), tuple(do), rec.array.tobytes(), twice), nontrivial=True)
+        ck.count("stream:" + dest)
+        snap = (rec.array.tobytes(), rec.scales.tobytes(), rec.offsets.tobytes())
+        want = [np.array(rec.x), np.array(rec.y), np.array(rec.z)]
+        hdr = laspy.LasHeader(point_format=fmt, version="1.4" if fmt >= 6 else "1.2")
+        hdr.scales, hdr.offsets = np.array(ds), np.array(do)
+        buf = io.BytesIO()
+        overflow = False
+        try:
+            if dest == "writer":
+                with LasWriter(buf, hdr, closefd=False) as w:
+                    w.write_points(rec)
+                    if twice:
+                        w.write_points(rec)
+            else:
+                laspy.LasData(hdr).write(buf)
+                buf.seek(0)
+                with laspy.open(buf, mode="a", closefd=False) as ap:
+                    ap.append_points(rec)
+                    if twice:
+                        ap.append_points(rec)
+        except OverflowError:
+            overflow = True
+            ck.count("stream_overflow")
+        except Exception as e:
+            ck.fail(f"streaming scale-aware records into a {dest} with another scaling raised {type(e).__name__}: {e}", inp)
+            continue
+        if (rec.array.tobytes(), rec.scales.tobytes(), rec.offsets.tobytes()) != snap:
+            ck.fail(f"streaming into a {dest} that uses another scaling{' (refused: OverflowError)' if overflow else ''} modified the caller's record "
+                    f"(X now {rec.array['X'].tolist()}, scales {rec.scales.tolist()}, offsets {rec.offsets.tolist()})", dict(inp, finding_key="C11:stream:pure"))
+        fits = all(np.all(np.abs((want[a] - do[a]) / ds[a]) <= 2**31 - 1) for a in range(3))
+        if overflow:
+            if fits:
+                ck.fail(f"streaming into a {dest} raised OverflowError although every coordinate is representable under the destination's scaling", inp)
+            continue
+        if not fits:
+            ck.fail(f"streaming into a {dest}: a coordinate is not representable under the destination's scaling but no OverflowError was raised", inp)
+            continue
+        back = laspy.read(io.BytesIO(buf.getvalue()))
+        if [float(x) for x in back.header.scales] != ds or [float(x) for x in back.header.offsets] != do:
+            ck.fail(f"file written by the {dest} does not carry the destination's scaling", inp)
+        got = [np.array(back.x), np.array(back.y), np.array(back.z)]
+        reps = 2 if twice else 1
+        for a in range(3):
+            exp = np.concatenate([want[a]] * reps)
+            if len(got[a]) != len(exp) or np.any(np.abs(got[a] - exp) > ds[a] / 2):
+                ck.fail(f"streamed coordinates on axis {a}: presented {exp.tolist()} stored {got[a].tolist()} (destination step {ds[a]})", inp)
+                break
+
+
 def run(ck):
     logging.getLogger("laspy").setLevel(logging.CRITICAL)
     warnings.simplefilter("ignore")
@@ -376,6 +447,7 @@ def run(ck):
         except StopIteration:
             pass
     ck.count("skipped_near_tie", skipped)
+    stream_layer(ck, 60 if q else 1500)
     out = ck.driver(lines)
     bad = None
     if out is None or len(out) != len(lines):
